@@ -118,6 +118,12 @@ type instRT struct {
 	mu     sync.Mutex
 	// cancel function of the context handed to the latest Start ("the context is used for cancellation")
 	startCancel context.CancelFunc
+	// flag-phase triggers: called from inside the library's critical section (the metrics callback), with the
+	// ordinal of this raise / lowering of the flag
+	onHook   func(phase string, nth int)
+	raises   int32
+	lowers   int32
+	observes int32
 }
 
 type recMetrics struct{ rt *instRT }
@@ -155,6 +161,13 @@ func (m recMetrics) SetIsLeader(v float64, l prometheus.Labels) {
 		tok, lid = m.rt.tr.tok(e.Token()), m.rt.tr.id(e.LeaderID())
 	}
 	m.rt.tr.logf("flag %d %d %d %d %d", m.rt.spec.ID, b, il, tok, lid)
+	if f := m.rt.onHook; f != nil {
+		if b == 1 {
+			f("flag", int(atomic.AddInt32(&m.rt.raises, 1)))
+		} else if il == 0 {
+			f("unflag", int(atomic.AddInt32(&m.rt.lowers, 1)))
+		}
+	}
 }
 func (m recMetrics) SetConnectionStatus(float64, prometheus.Labels) {}
 func (m recMetrics) IncTransitions(l prometheus.Labels) {
@@ -164,7 +177,12 @@ func (m recMetrics) IncFailures(prometheus.Labels)                             {
 func (m recMetrics) IncAcquireAttempts(prometheus.Labels)                      {}
 func (m recMetrics) IncTokenValidationFailures(prometheus.Labels)              {}
 func (m recMetrics) ObserveHeartbeatDuration(time.Duration, prometheus.Labels) {}
-func (m recMetrics) ObserveLeaderDuration(time.Duration, prometheus.Labels)    {}
+// ObserveLeaderDuration is called when a term ends, inside the critical section and before the flag is lowered.
+func (m recMetrics) ObserveLeaderDuration(time.Duration, prometheus.Labels) {
+	if f := m.rt.onHook; f != nil {
+		f("observe", int(atomic.AddInt32(&m.rt.observes, 1)))
+	}
+}
 
 type scriptedHealth struct{ rt *instRT }
 
@@ -364,6 +382,30 @@ func runScenario(t *testing.T, sc *Scenario) *ScenarioResult {
 						}
 						execStep(tr, store, rts, tg.Step, &apiSeq, &wg)
 					}()
+				}
+			}
+		}
+		// triggers of phase "flag" / "unflag" / "observe" (metrics callbacks): the step's API call or notification is issued by
+		// another goroutine while the library is still inside the critical section that raised (lowered, is about to lower) the flag; the hook yields until that goroutine is parked
+		// on the election's mutex, so the call is the first thing to run when the critical section ends
+		for _, is := range sc.Insts {
+			rt := rts[is.ID]
+			if rt == nil {
+				continue
+			}
+			id := is.ID
+			rt.onHook = func(phase string, nth int) {
+				fired := false
+				for _, tg := range sc.Triggers {
+					if tg.Inst == id && tg.Nth == nth && tg.Phase == phase {
+						execStep(tr, store, rts, tg.Step, &apiSeq, &wg)
+						fired = true
+					}
+				}
+				if fired {
+					for k := 0; k < 4; k++ {
+						runtime.Gosched()
+					}
 				}
 			}
 		}
